@@ -174,3 +174,111 @@ class ReplyStep:
 
     def ensures_retryable_codes_change_nothing(rc, _trace):
         return implies(rc != RC_OK, (rc == RC_SUM or rc == RC_P2P_BUSY) and len(_trace) == 0)
+
+
+# ---- the window-fill step of send_scp_burst (one new command; body of `while len(outstanding_packets) < window_size and ...`) ----
+import z3   # noqa: E402
+from pyvc.values import fresh as _fresh, ExcV as _ExcV, ObjV as _ObjV, TBool   # noqa: E402
+from pyvc.speclib import uf   # noqa: E402
+
+ARGS = TRec("scpcall", x=TInt(0, 255), y=TInt(0, 255), p=TInt(0, 31), cmd=TInt(0, 0xffff), arg1=TInt(), arg2=TInt(), arg3=TInt(), data=TInt(),
+            callback=TInt(), timeout=TReal())
+
+
+def _uf(name, *terms):
+    return z3.Function("uf_" + name, *([z3.IntSort()] * (len(terms) + 1)))(*[t if z3.is_expr(t) else z3.IntVal(t) for t in terms])
+
+
+def _next(E, args, kwargs, st, node):
+    from pyvc.engine import Raised
+    obj = args[0]
+    if obj.cls == "Iterator":
+        # the caller's iterable of commands: exhausted (ghost g_exhausted) or yields the ghost command g_args
+        more = st.assume(z3.Not(st.env["g_exhausted"]))
+        done = st.assume(st.env["g_exhausted"])
+        return [(more, st.env["g_args"]), (done, Raised(_ExcV("StopIteration", ())))]
+    if obj.cls == "SeqGen":
+        # the connection's sequence-number generator (contract Seqs16: numbers 0..65535): some number, recorded
+        v, facts = _fresh(TInt(0, 0xffff), "seqno")
+        s = st.assume(*facts)
+        s.trace = ListV(s.trace.items + (("seq", v),))
+        return [(s, v)]
+    raise __import__("pyvc.values", fromlist=["EngineError"]).EngineError("next() of %s" % obj.cls)
+
+
+def in_window(seq):
+    """the sequence number is that of a command still outstanding (in the window)"""
+    return uf("in_window", seq) == 1
+
+
+def _win_contains(E, obj, args, kwargs, st, node):
+    return [(st, _uf("in_window", args[0]) == 1, None)]
+
+
+def _win_set(E, obj, args, kwargs, st, node):
+    s = st.copy()
+    s.trace = ListV(s.trace.items + (("window_put", args[0], args[1]),))
+    return [(s, NONE, None)]
+
+
+def _win_get(E, obj, args, kwargs, st, node):
+    for t in reversed(st.trace.items):
+        if t[0] == "window_put" and t[1] is args[0]:
+            return [(st, t[2], None)]
+    raise __import__("pyvc.values", fromlist=["EngineError"]).EngineError("window lookup of a number not just stored")
+
+
+def _new_packet(E, args, kwargs, st, node):
+    s = st.copy()
+    s.trace = ListV(s.trace.items + (("packet", tuple(sorted(kwargs.items()))),))
+    pk, facts = _fresh(TRec("SCPPacket", ident=TInt(), bytestring=TInt()), "packet")
+    return [(s.assume(*facts), pk)]
+
+
+def _new_tp(E, obj, args, kwargs, st, node):
+    return [(st, _ObjV("TransmittedPacket", {"callback": args[0], "packet": args[1], "timeout": args[2], "bytestring": args[1].fields["bytestring"]}), None)]
+
+
+@contract("rig/machine_control/scp_connection.py::SCPConnection.send_scp_burst@whilebody:1")
+class WindowFillStep:
+    """one turn of the window-fill loop: when the caller's commands are used up nothing is sent and filling stops; otherwise
+    the next command gets a sequence number that NO outstanding command has (numbers are drawn until one is free), is packed
+    with exactly its own destination, command, arguments and data and that number, is put into the window under that number
+    with its callback and the timeout default + its own extra, and is transmitted once"""
+    properties = ("C06",)
+    params = dict(self=TRec("SCPConnection", seq=TRec("SeqGen"), sock=TRec("Socket"), default_timeout=TReal()),
+                  parameters_and_callbacks=TRec("Iterator"), queued_packets=TBool(), outstanding_packets=TRec("Window"),
+                  TransmittedPacket=TRec("TPClass"), g_args=ARGS, g_exhausted=TBool())
+    fragment_result = ("queued_packets",)
+    fragment_head = "while len(outstanding_packets) < window_size and queued_packets:"
+    externals = {"next": _next, "Window.__contains__": _win_contains, "Window.__setitem__": _win_set, "Window.__getitem__": _win_get,
+                 "class:SCPPacket": _new_packet, "TPClass.__call__": _new_tp, "Socket.send": _sock_send}
+    loop_headers = {1: "while seq in outstanding_packets:"}
+    options = {"no_merge": True}
+    assumptions = ["the window, the caller's iterator, the sequence generator (contract Seqs16) and the socket are opaque objects whose operations are recorded; "
+                   "membership of the window is a function of the sequence number; TransmittedPacket(callback, packet, timeout) is the record of its arguments; "
+                   "termination of the number-drawing loop is not proved (it ends because the window is smaller than the sequence space)"]
+
+    def native(queued_packets):
+        raise __import__("pyvc.replay", fromlist=["OutsideHarness"]).OutsideHarness()
+
+    def requires(queued_packets):
+        return queued_packets
+
+    def inv_1_a_sequence_number(seq):
+        return 0 <= seq <= 0xffff
+
+    def ensures_stops_when_the_commands_are_used_up(g_exhausted, result, _trace):
+        return implies(g_exhausted, not result[0] and len(_trace) == 0) and implies(not g_exhausted, result[0])
+
+    def ensures_new_command_gets_a_free_number_and_is_sent_once_as_given(self, g_args, g_exhausted, _trace):
+        n = len(_trace)
+        sq = _trace[n - 2][1]           # the number the command is filed under in the window
+        return implies(not g_exhausted,
+                       n >= 4 and _trace[n - 3][0] == "packet" and _trace[n - 2][0] == "window_put" and _trace[n - 1][0] == "send"
+                       and 0 <= sq <= 0xffff and not in_window(sq)
+                       and _trace[n - 3][1] == (("arg1", g_args.arg1), ("arg2", g_args.arg2), ("arg3", g_args.arg3), ("cmd_rc", g_args.cmd), ("data", g_args.data),
+                                                ("dest_cpu", g_args.p), ("dest_port", 0), ("dest_x", g_args.x), ("dest_y", g_args.y), ("reply_expected", True),
+                                                ("seq", sq), ("src_cpu", 31), ("src_port", 7), ("src_x", 0), ("src_y", 0), ("tag", 255))
+                       and _trace[n - 2][2].callback == g_args.callback and _trace[n - 2][2].timeout == self.default_timeout + g_args.timeout
+                       and _trace[n - 1] == ("send", _trace[n - 2][2].packet.bytestring))
